@@ -880,13 +880,6 @@ def oracle_operator(sc: dict, r: dict) -> list[tuple[str, dict]]:
             dup = len(set(got)) != len(got)
             if not missing and not dup and not nss and all((not SCOPE[g[0]]) and g[1] is None and g[0] in served for g in extra):
                 fails.append((f"t={c['t']}: no namespace is served but the cluster-scoped watch(es) {extra} are still open", F3_SIG))
-            elif not extra and not dup and missing and all(m[0] in r.get("not_found", []) for m in missing) and \
-                    not any(p[0] >= max(r["not_found_at"][m[0]] for m in missing) and p[1] <= c["t"] for p in r.get("passes", [])):
-                fails.append((f"t={c['t']}: served pair(s) {missing} have no watch: the watcher exited on HTTP 404 and no revision of the "
-                              "insights followed, so no pass has replaced it", F6_SIG))
-            elif not extra and not dup and missing and all(m[0] in r.get("not_found", []) for m in missing):
-                fails.append((f"t={c['t']}: served pair(s) {missing} have no watch: the watcher died on HTTP 404 while its CRD was away, "
-                              "its key stayed in the ensemble, and it is never started again", F4_SIG))
             elif not dup and (extra or missing) and all(
                     (SCOPE[m[0]] and m[1] is not None and _in_gap(sc, "ns", m[1])) or _in_gap(sc, "res", m[0])
                     # a cluster-scoped watch kept because a namespace deleted in a gap still counts as served
@@ -897,6 +890,13 @@ def oracle_operator(sc: dict, r: dict) -> list[tuple[str, dict]]:
             elif not dup and not extra and missing and all(SCOPE[m[0]] and m[1] is not None and _recreated(sc, m[1]) for m in missing):
                 fails.append((f"t={c['t']}: served pair(s) {missing} have no watch: the namespace was deleted and re-created, and the "
                               "DELETED of the old incarnation was applied after the ADDED of the new one", F7_SIG))
+            elif not extra and not dup and missing and all(m[0] in r.get("not_found", []) for m in missing) and \
+                    not any(p[0] >= max(r["not_found_at"][m[0]] for m in missing) and p[1] <= c["t"] for p in r.get("passes", [])):
+                fails.append((f"t={c['t']}: served pair(s) {missing} have no watch: the watcher exited on HTTP 404 and no revision of the "
+                              "insights followed, so no pass has replaced it", F6_SIG))
+            elif not extra and not dup and missing and all(m[0] in r.get("not_found", []) for m in missing):
+                fails.append((f"t={c['t']}: served pair(s) {missing} have no watch: the watcher died on HTTP 404 while its CRD was away, "
+                              "its key stayed in the ensemble, and it is never started again", F4_SIG))
             elif not extra and not dup and missing and all(m[0] in gone410 for m in missing):
                 fails.append((f"t={c['t']}: served pair(s) {missing} have no watch: the watcher died on HTTP 410 and is never restarted", F1_SIG))
             else:
